@@ -1,0 +1,15 @@
+//go:build verif
+
+package router
+
+// Verification hook for property C08, round 6: the cacheCtl of a RUNNING router (started by the real run()), so that
+// an entry with chosen instants can be placed into its backends before queries are fed to the real handleServerReq
+// (hit in the refresh window -> real asyncSingleFlightPrefetch -> real doPrefetch -> real cacheCtl.Store).
+// Add-only; compiled only with -tags verif.
+
+// Cache wraps the router's own cacheCtl (the wrapper's Close must not be called: the router owns it).
+func (v *VerifC08Router) Cache() *VerifC08Cache { return &VerifC08Cache{c: v.r.cache} }
+
+// HasMemory / HasRedis: which backends the router's cache was configured with.
+func (v *VerifC08Cache) HasMemory() bool { return v.c.memory != nil }
+func (v *VerifC08Cache) HasRedis() bool  { return v.c.redis != nil }
